@@ -120,7 +120,7 @@ def gen_C02(tier, rnd):
     # names known through different routes, repeated (map iteration order)
     for k in range(10 if tier == "quick" else 60):
         ev = CONNECT + [reg(1, "t/a"), sub(2, "t/b"), M("SUBACK", mid=2, codes=[0]), sub(3, "t/a"), M("SUBACK", mid=3, codes=[1]),
-                        bpub("t/a"), bpub("t/b", qos=1, mid=4), bpub("pre/x"), bpub("pre/y"), bpub("pre/z"), bpub("own/z"), bpub("ab")]
+                        bpub("t/a"), bpub("t/b", qos=1, mid=4), bpub("pre/x"), bpub("pre/y"), bpub("pre/z"), bpub("own/z"), bpub("ab"), bpub("x:c3a9", qos=1, mid=5)]
         out.append(sc("routes-%d" % k, ev, tidmax=9, tail=15))
     return out
 
@@ -135,6 +135,12 @@ def gen_C01(tier, rnd):
             ev.append(P("PUBLISH", qos=qos, tit=2, sname="xy", mid=20 + qos, data="z:%d" % n))
             ev.append(P("PUBLISH", qos=qos, tit=1, tid=5, mid=30 + qos, data="z:%d" % n, dup=True))
         out.append(sc("size-%d" % n, ev, tail=15))
+    # short topic names with bytes >= 0x80, NUL, wildcard-looking bytes ("x:<hex>" = raw bytes)
+    for sn in ("x:c3a9", "x:ff00", "x:00ff", "x:8080", "zz", "a/", "/b"):
+        ev = CONNECT + [P("PUBLISH", qos=q, tit=2, sname=sn, mid=40 + q, data="s:short") for q in (0, 1, 3)]
+        ev += [P("SUBSCRIBE", qos=1, tit=2, sname=sn, mid=50), M("SUBACK", mid=50, codes=[1]),
+               P("UNSUBSCRIBE", tit=2, sname=sn, mid=51), M("UNSUBACK", mid=51)]
+        out.append(sc("shortname-%s" % sn.replace(":", "").replace("/", "_"), ev, tail=5))
     # full-range IDs
     for k in range(6 if tier == "quick" else 40):
         mid = rnd.choice([1, 255, 256, 0xFFFE, 0xFFFF, rnd.randrange(1, 65536)])
@@ -143,6 +149,11 @@ def gen_C01(tier, rnd):
                         P("PUBLISH", qos=1, tit=rnd.choice([0, 1]), tid=tid, mid=mid, data="s:b")]
         out.append(sc("ids-%d" % k, ev, tail=15))
     return out
+
+
+def gen_C03(tier, rnd):
+    # SUBSCRIBE / UNSUBSCRIBE with unusual short names
+    return [s for s in gen_C01("quick", rnd) if s["id"].startswith("shortname")]
 
 
 def pingreq():
